@@ -363,7 +363,8 @@ func additive(symbols []pr.IntNamedString, value int) (string, bool) {
 			continue
 		}
 		repetitions := value / vs.Int
-		if repetitions > maxSymbolRepeat {
+		// (the absolute value of the minimum integer is negative)
+		if repetitions < 0 || repetitions > maxSymbolRepeat {
 			return "", false
 		}
 		parts = append(parts, strings.Repeat(symbol(vs.NamedString), repetitions))
